@@ -5,7 +5,7 @@ from harness import accounting as A
 
 ID = "C15"
 PROPS = "props/C15.v"
-NEEDS = ["acc_close_to_zero_abs_tol"]
+NEEDS = ["acc_close_to_zero_abs_tol", "dist_close_to_zero_abs_tol"]   # the second one through model/Dist.v (C15_bat_end_to_end)
 
 
 def streams():
@@ -13,9 +13,12 @@ def streams():
 
 
 ASSUMPTIONS = [
-    "Battery path: the per-inverter set-points and the algorithm's remaining power are inputs; "
-    "`sum(set-points) + remaining == requested` is C01's conclusion and appears as an explicit hypothesis of "
-    "C15_bat_succeeded only (sum / sets / failed hold without it).",
+    "Battery path: in C15_bat_sum/_sets/_failed/_succeeded the per-inverter set-points and the algorithm's remaining "
+    "power are inputs, and `sum(set-points) + remaining == requested` (C01's conclusion) is an explicit hypothesis of "
+    "C15_bat_succeeded only. C15_bat_end_to_end discharges it: set-points and remainder are those of the distribution "
+    "model (coq/model/Dist.v, tied to the code by C01's own correspondence) for any battery data, via the lemma behind "
+    "C01_sum; it holds for requests the algorithm does not treat as zero (|p| > 1e-9 W) and takes the calls in the "
+    "model's group order (sums are order-independent).",
     "Every addressed inverter is a key of _inv_bats_map with a non-empty battery set (how "
     "_get_battery_inverter_mappings builds the map); PV working components carry distinct ids (they come from a set).",
     "No state is shared between requests in flight on one manager instance: each Result is modelled as a function "
@@ -45,8 +48,9 @@ META = {
                   "concurrent streams: 2-3 requests for disjoint component subsets run concurrently (asyncio.gather) on one "
                   "manager instance with per-component reply latencies (error-before-success, success-before-error, random, "
                   "instant); every Result is matched to its request by identity and judged/compared on its own.",
-    "level_note": "Battery set-points/remaining power are inputs (C01/C02 own the algorithm); the C01 identity is a "
-                  "hypothesis of C15_bat_succeeded. PV model is the code after the F14 `fix:` commit; the pre-fix behaviour "
+    "level_note": "Battery set-points/remaining power are inputs (C01/C02 own the algorithm) in the accounting theorems, the C01 "
+                  "identity being a hypothesis of C15_bat_succeeded; C15_bat_end_to_end composes with the distribution model "
+                  "(model/Dist.v) and discharges it with C01's lemma, so C15's closure includes Dist. PV model is the code after the F14 `fix:` commit; the pre-fix behaviour "
                   "is kept as pv_result_before_fix and refuted in a comment/Example only. When a PV manager has inverters "
                   "but none is usable, no Result is sent at all (model: NoResult; characterised by C15_pv_no_result) — "
                   "the accounting statement is vacuous there; noted, not counted as a violation. Trusted: Coq kernel + "
